@@ -1063,8 +1063,10 @@ func (m *repoManager) deleteRepo(uuid dvid.UUID, passcode string) error {
 		delete(m.uuidToVersion, u)
 		delete(m.versionToUUID, v)
 	}
+	// Persist the id maps, otherwise a restart brings the deleted repo's UUIDs back.
+	err := m.putCachesLocked()
 	m.idMutex.Unlock()
-	return nil
+	return err
 }
 
 // ---- Repo-level properties functions -------
